@@ -463,6 +463,13 @@ def check(ctx):
     with ctx.shared({"C07.R3": ("C03.R9", "when the data is given up (expiry purge) the next query is forced to be a Reset Query: both tables purged, "
                                 "request_session_id = true, serial 0 - never a Serial Query for data that is gone")}):
         C07.r3(ctx, retsets)
+    from specs import C04, C10
+    with ctx.shared({"C04.R5": ("C03.R10", "a response that breaks off in the middle of a PDU fails: the read-until-complete loop hands back the first "
+                                "negative result and never a partial count"),
+                     "C10.R1": ("C03.R11", "records of different caches are different records (the source is part of the router-key identity): one cache's "
+                                "response cannot withdraw or collide with another cache's keys")}):
+        C04.r5(ctx, retsets)
+        C10.r1(ctx)
     ctx.not_decided("that the table contents equal previous + announcements - withdrawals (C02's set semantics composed with R1-R5)")
     ctx.not_decided("cancellation of the worker thread in the middle of the receive loop (covered by rtr_stop's purge, C07.R4)")
 
